@@ -481,7 +481,7 @@ def import_edit_case(job):
     seed, i = job
     rng = random.Random(seed * 7331 + i)
     symlink = rng.random() < 0.7
-    which = rng.choice(["lib", "included"])
+    which = rng.choice(["lib", "included", "defaults"])
     lib = rng.choice(["laze-lib.yml", "laze.yml"])
     named = {"name": "extlib"} if rng.random() < 0.4 else {}
 
@@ -494,6 +494,7 @@ def import_edit_case(job):
                                   "imports": [dict({"path": "vendor/ext", "symlink": symlink}, **named)],
                                   "apps": [{"name": "a0", "sources": ["a0.c"], "depends": ["extmod"]}]}],
             f"vendor/ext/{lib}": [{"includes": ["flags.yml"],
+                                   "defaults": {"module": {"env": {"local": {"CFLAGS": [f"-DDFLT_LEVEL={level if which == 'defaults' else 0}"]}}}},
                                    "modules": [{"name": "extmod", "sources": ["ext.c"], "depends": ["extflags"],
                                                 "env": {"export": {"CFLAGS": [f"-DLIB_LEVEL={level if which == 'lib' else 0}"]}}}]}],
             "vendor/ext/flags.yml": [{"modules": [{"name": "extflags",
@@ -507,7 +508,7 @@ def import_edit_case(job):
         for step in ("cold", "again"):
             r = s.invoke(inv)
             out["steps"].append((step, r["rc"], r["cache_hit"]))
-        f = f"vendor/ext/{lib}" if which == "lib" else "vendor/ext/flags.yml"
+        f = f"vendor/ext/{lib}" if which in ("lib", "defaults") else "vendor/ext/flags.yml"
         projrun.write_project(s.d, {f: p1["files"][f]})
         st = os.stat(os.path.join(s.d, f))
         os.utime(os.path.join(s.d, f), ns=(st.st_atime_ns, st.st_mtime_ns + 4_000_000_000))
@@ -531,21 +532,21 @@ def import_worker(jobs):
     return [import_edit_case(j) for j in jobs]
 
 
-def judge_import(chk, job, out):
+def judge_import(chk, job, out, prefix="cache"):
     chk.evaluations += 1
     chk.count("import-edit:" + ("symlink" if out["symlink"] else "plain") + ":" + out["edited"])
     steps = {n: (rc, hit) for n, rc, hit in out["steps"]}
     case = {"import_case": list(job), "symlink": out["symlink"], "edited": out["edited"], "steps": out["steps"]}
     if steps.get("cold", (1, False))[0] != 0 or out.get("cold_rc") != 0:
-        chk.fail_oracle("cache:import-project-rejected", f"the import project is not accepted: {out.get('stderr')}", case)
+        chk.fail_oracle(prefix + ":import-project-rejected", f"the import project is not accepted: {out.get('stderr')}", case)
         return
     if not steps["again"][1]:
-        chk.fail_oracle("cache:import-unchanged-not-served", "an unchanged project with a local import is not served from the cache on an identical re-run", case)
+        chk.fail_oracle(prefix + ":import-unchanged-not-served", "an unchanged project with a local import is not served from the cache on an identical re-run", case)
     if steps["after-edit"][1]:
-        chk.fail_oracle("cache:hit-after-edit:imported-file", f"a lazefile reached through a local import ({'symlinked' if out['symlink'] else 'plain'}; the "
-                        f"{'imported file itself' if out['edited'] == 'lib' else 'file it includes'}) was edited, yet the next run is served from the cache", case)
+        chk.fail_oracle(prefix + ":hit-after-edit:imported-file", f"a lazefile reached through a local import ({'symlinked' if out['symlink'] else 'plain'}; the "
+                        f"{'file it includes' if out['edited'] == 'included' else 'imported file itself' + (': its defaults' if out['edited'] == 'defaults' else '')}) was edited, yet the next run is served from the cache", case)
     elif out.get("ninja_after_edit") != out.get("ninja_cold_edited"):
-        chk.fail_oracle("cache:stale-ninja-after-edit:imported-file", "after an edit of an imported lazefile the regenerated ninja file differs from a cold run on the edited tree", case)
+        chk.fail_oracle(prefix + ":stale-ninja-after-edit:imported-file", "after an edit of an imported lazefile the regenerated ninja file differs from a cold run on the edited tree", case)
     else:
         chk.nontrivial.add(f"import-{job[1]}")
 
